@@ -62,7 +62,7 @@ Lemma fr_hget_point_old ch n :
 Proof. intros H. unfold cframe, hget_point_old. crush. Qed.
 Lemma fr_hrevoke ch n py : cpf (disk ch) = cpf (mem ch) -> cframe ch (hrevoke warn prof ch n py).
 Proof.
-  intros H. unfold hrevoke, tbind. destruct (add_p prof n 1) as [n1|]; [|unfold cframe; cbn; auto].
+  intros H. unfold hrevoke, tbind. destruct (add_checked n 1) as [n1|]; [|unfold cframe; cbn; auto].
   pose proof (fr_revoke ch n1 py H) as Hr.
   destruct (do_revoke warn prof ch n1 py) as [ch' o]. unfold cframe in *. cbn [fst snd] in *.
   destruct (st o); try exact Hr. destruct (o_secret o); [exact Hr|].
@@ -397,7 +397,7 @@ Proof.
     + (* HRevoke *)
       pose proof (settle_frame ch (fun ch => hrevoke warn prof ch n pay_ok) _ _ Hd HC (fr_hrevoke warn prof ch n pay_ok Hd)) as [Hs Hn].
       rewrite gstep_unfold. unfold step. cbn [step0 on_ready]. unfold hrevoke, settle in *.
-      destruct (tbind (add_p prof n 1) (ch, aborted) _) as [ch' r]. cbv beta iota zeta. cbn [fst snd] in *.
+      destruct (tbind _ (ch, refused) _) as [ch' r]. cbv beta iota zeta. cbn [fst snd] in *.
       finish_frame Hs Hn r.
     + (* Setup on a ready channel *)
       rewrite gstep_unfold. cbn [step step0 st refused fst snd CSInv cpsigned cprevoked opt_cons o_cpsig]. auto.
@@ -463,7 +463,7 @@ Proof.
     destruct (2 <=? n0); [|cbn; discriminate].
     destruct (secret_res warn prof (mem ch) (n0 - 2)) as [[|]|]; cbn; discriminate.
   - pose proof (fr_hrevoke warn prof ch n0 pay_ok Hd) as [_ [_ Hn]]. unfold hrevoke in Hn.
-    destruct (tbind (add_p prof n0 1) (ch, aborted) _); cbn [snd] in *; congruence.
+    destruct (tbind _ (ch, refused) _); cbn [snd] in *; congruence.
   - cbn; discriminate.
   - cbn; discriminate.
 Qed.
